@@ -47,6 +47,8 @@ def gen_points(rng, g, n):
             continue
         b = rng.randint(g["b0"] - 6, g["b0"] + g["rx"] * g["ps"] + 6)
         p = rng.randint(1, g["p0"] + g["ry"] * g["ps"] + 6)
+        if rng.random() < 0.08:
+            p = -rng.randint(1, 4)        # a pair below the diagonal (death < birth): legal input, negative persistence in both input forms
         if even:
             b, p = b - b % 2, p + p % 2
         pts.append([b, p])
